@@ -13,7 +13,7 @@ Spec == Init /\ [][Next]_l
 (* a body whose every field text is of the declared type *)
 WellTyped(c) == \/ c.family = "text"
                 \/ c.schema \in {"S1", "S2", "S3"} /\ Valid([S2 EXCEPT !.required = <<>>], c.v, "plain")
-                \/ c.schema \in {"S4", "S4a", "S5", "S6"} /\ Valid(SchemaOf(c), c.v, "plain")
+                \/ c.schema \in {"S4", "S4a", "S5", "S6", "SN"} /\ Valid(SchemaOf(c), c.v, "plain")
 
 Failed(line) ==
    LET c == line.c IN
